@@ -288,10 +288,12 @@ def _sample_cases(draw):
     else:
         d = draw(_group_sets(distinct=True, min_each=1, max_size=9))
     method, strat = draw(st.sampled_from(SAMPLINGS))
-    return dict(d=d, method=method, strat=strat, seed=draw(gen.RNG_SEED), reps=draw(st.integers(1, 4)))
+    # the documented run-time setting of the dynamic switch (None: the shipped value, 100)
+    switch = draw(st.sampled_from([None, None, 5, 110, 1000])) if method == "dynamic" else None
+    return dict(d=d, method=method, strat=strat, seed=draw(gen.RNG_SEED), reps=draw(st.integers(1, 4)), switch=switch)
 
 
-def check_one_sample(src_obj, src_triples, src_names, b, method, strat, ctx, group_counts=None):
+def check_one_sample(src_obj, src_triples, src_names, b, method, strat, ctx, group_counts=None, switch=100):
     from score_analysis import GroupScores
 
     require(isinstance(b, GroupScores), "grp:sample-type", f"{ctx}: {type(b).__name__}")
@@ -309,9 +311,9 @@ def check_one_sample(src_obj, src_triples, src_names, b, method, strat, ctx, gro
     resolved = method
     if method == "dynamic":
         npos, nneg = len(src_obj.pos), len(src_obj.neg)
-        if npos == 100 or nneg == 100:
+        if npos == switch or nneg == switch:
             resolved = None  # the docs say both ">100" and "at least 100"
-        elif strat == "by_group" or npos < 100 or nneg < 100:
+        elif strat == "by_group" or npos < switch or nneg < switch:
             resolved = "replacement"
         else:
             resolved = "single_pass"
@@ -333,6 +335,19 @@ def check_one_sample(src_obj, src_triples, src_names, b, method, strat, ctx, gro
 
 
 def check_sampling(case):
+    import score_analysis.scores as sa_scores
+
+    shipped = sa_scores.SINGLE_PASS_SAMPLE_THRESHOLD
+    if case.get("switch") is not None:
+        # "The threshold can be changed by setting the variable SINGLE_PASS_SAMPLE_THRESHOLD."
+        sa_scores.SINGLE_PASS_SAMPLE_THRESHOLD = case["switch"]
+    try:
+        return _check_sampling(case, case.get("switch") or shipped)
+    finally:
+        sa_scores.SINGLE_PASS_SAMPLE_THRESHOLD = shipped
+
+
+def _check_sampling(case, switch):
     from score_analysis import BootstrapConfig
 
     d = case["d"]
@@ -352,7 +367,8 @@ def check_sampling(case):
     for j in range(case["reps"]):
         b = g.bootstrap_sample(cfg)
         check_one_sample(g, src_t, names, b, method, strat,
-                         f"{method}/{strat} seed={case['seed']} draw {j} config={d['sc']}/{d['ec']}", gc)
+                         f"{method}/{strat} seed={case['seed']} draw {j} config={d['sc']}/{d['ec']} switch={switch}", gc,
+                         switch=switch)
     require(triples(g) == src_t, "grp:source-mutated", "")
     lacking = set(d["pg"]) != set(d["ng"])
     return dict(nontrivial=len(names) >= 2 or len(d["pos"]) >= 90,
